@@ -3,6 +3,7 @@
 package zz_verif
 
 import (
+	"bytes"
 	"context"
 	"errors"
 	"time"
@@ -217,6 +218,22 @@ type denyWriter struct{ id string }
 func (d *denyWriter) CanAppend(e accesscontroller.LogEntry, _ idp.Interface, _ accesscontroller.CanAppendAdditionalContext) error {
 	if e.GetIdentity() != nil && e.GetIdentity().ID == d.id {
 		return errors.New("denied")
+	}
+	return nil
+}
+
+// denyPayload refuses the entry with one given payload (whoever signed it), otherwise defers to inner.
+type denyPayload struct {
+	p     []byte
+	inner accesscontroller.Interface
+}
+
+func (d *denyPayload) CanAppend(e accesscontroller.LogEntry, ip idp.Interface, c accesscontroller.CanAppendAdditionalContext) error {
+	if bytes.Equal(e.GetPayload(), d.p) {
+		return errors.New("denied payload")
+	}
+	if d.inner != nil {
+		return d.inner.CanAppend(e, ip, c)
 	}
 	return nil
 }
